@@ -616,7 +616,8 @@ class SamplingMethod(DirectMethod):
         # Represent polynomial as a BSpline object (https://gitlab.kuleuven.be/meco-software/rockit/-/blob/v0.1.28/rockit/splines/spline.py#L392)
         degree = coeff.shape[1]-1
         basis = BSplineBasis([0]*(degree+1)+[1]*(degree+1),degree)
-        tscale = self.T / self.N / self.M
+        # Length of this integration step (control intervals need not be equally long)
+        tscale = (self.control_grid[k + 1] - self.control_grid[k])/self.M
         tpower = vcat([tscale**i for i in range(degree+1)])
         coeff = coeff * repmat(tpower.T,stage.nx,1)
         # TODO: bernstein transformation as function of degree
